@@ -7,6 +7,7 @@
 (*          (min, max : Dims -> Nat ; every quota declares every dimension *)
 (*           - the property quantifies over trees sharing one fixed set of *)
 (*           dimensions)                                                   *)
+(*          (+ weight : Dims -> Nat, the shared weight used by C02)        *)
 (*   pod    live pod id -> [q, req, np, assigned]                          *)
 (*          q   quota the pod is accounted in                              *)
 (*          req Dims -> Nat ; np = non-preemptible ; assigned = holds      *)
@@ -22,8 +23,9 @@ EXTENDS Integers, FiniteSets, Sequences, FiniteSetsExt, TLC
 CONSTANTS Root,      \* name of the root quota (string)
           Dims       \* resource dimensions (strings)
 
-VARIABLES quota, pod
-vars == <<quota, pod>>
+VARIABLES quota, pod,
+          cluster    \* Dims -> Nat : total resource of the cluster (sum of node add/remove deltas)
+vars == <<quota, pod, cluster>>
 
 Zero == [d \in Dims |-> 0]
 Max2(a, b) == IF a >= b THEN a ELSE b
@@ -72,7 +74,8 @@ IsAncestorOrSelf(a, n) == Reaches(n, a, Cardinality(DOMAIN quota) + 1)
 \* Operations are written as state transformers  St -> St  (St = [quota, pod]) so that a batch of
 \* operations issued concurrently on distinct pods can be applied as one step (they commute in the
 \* abstract state, so any linearisation gives the same objects).
-QBody(r) == [parent |-> r.parent, isParent |-> r.isParent, lent |-> r.lent, min |-> r.min, max |-> r.max]
+QBody(r) == [parent |-> r.parent, isParent |-> r.isParent, lent |-> r.lent, min |-> r.min, max |-> r.max,
+             weight |-> r.weight]      \* shared weight (defaults to max)
 
 RECURSIVE ReachesIn(_, _, _, _)
 ReachesIn(Q, n, a, k) == IF n = a THEN TRUE
@@ -115,7 +118,7 @@ MigrateOK(S, p, in) == p \in DOMAIN S.pod /\ in \in DOMAIN S.quota /\ in # S.pod
 MigrateF(S, p, in)  == [S EXCEPT !.pod[p].q = in]
 
 Cur == [quota |-> quota, pod |-> pod]
-Becomes(S) == quota' = S.quota /\ pod' = S.pod
+Becomes(S) == quota' = S.quota /\ pod' = S.pod /\ UNCHANGED cluster
 
 QuotaUpsert(r)  == QuotaUpsertOK(Cur, r) /\ Becomes(QuotaUpsertF(Cur, r))
 QuotaDelete(n)  == QuotaDeleteOK(Cur, n) /\ Becomes(QuotaDeleteF(Cur, n))
@@ -125,10 +128,12 @@ PodDelete(p)    == PodKnown(Cur, p) /\ Becomes(PodDeleteF(Cur, p))
 Reserve(p)      == PodKnown(Cur, p) /\ Becomes(ReserveF(Cur, p))
 Unreserve(p)    == PodKnown(Cur, p) /\ Becomes(UnreserveF(Cur, p))
 Migrate(p, in)  == MigrateOK(Cur, p, in) /\ Becomes(MigrateF(Cur, p, in))
-\* full rebuild of the manager's tree, node add/remove, fresh manager: no effect on the objects
+\* node add / remove changes the cluster total only
+NodeDelta(delta) == cluster' = [d \in Dims |-> cluster[d] + delta[d]] /\ UNCHANGED <<quota, pod>>
+\* full rebuild of the manager's tree, fresh manager, runtime refresh: no effect on the objects
 Skip == UNCHANGED vars
 
-Init == quota = <<>> /\ pod = <<>>
+Init == quota = <<>> /\ pod = <<>> /\ cluster = Zero
 
 (********************************* invariants *******************************)
 NonNegative == \A q \in DOMAIN quota : \A d \in Dims :
